@@ -234,9 +234,12 @@ partial def parseStmt (j : Json) : Option C16.Stmt := do
   | "simple" => some (.simple (if a.size > 1 then (getNat? a[1]!).getD 0 else 0)) | "ret" => some .ret | "raise" => some .raise | "brk" => some .brk | "cont" => some .cont
   | "assert" => some (.assertC (← (getStr? a[1]!) >>= parseCondK))
   | "if" => some (.ite (← (getStr? a[1]!) >>= parseCondK) (← body 2) (← body 3))
-  | "while" => some (.whileS (← (getStr? a[1]!) >>= parseCondK) (← body 2))
-  | "for" => some (.forS (← (getStr? a[1]!) >>= parseIterK) (← body 2))
+  | "while" => some (.whileS (← (getStr? a[1]!) >>= parseCondK) (← body 2) (← (if a.size > 3 then body 3 else some [])))
+  | "for" => some (.forS (← (getStr? a[1]!) >>= parseIterK) (← body 2) (← (if a.size > 3 then body 3 else some [])))
   | "with" => some (.withS (← body 1))
+  | "try" =>
+    let hk : Option C16.HKind := match (← getStr? a[2]!) with | "none" => some .none | "all" => some .all | "some" => some .some | _ => none
+    some (.tryS (← body 1) (← hk) (← body 3) (← body 4))
   | _ => none
 
 def outName : C16.Out → String
@@ -266,9 +269,12 @@ partial def stmtJson : C16.Stmt → Json
   | .ret => Json.arr #["ret"] | .raise => Json.arr #["raise"] | .brk => Json.arr #["brk"] | .cont => Json.arr #["cont"]
   | .assertC c => Json.arr #["assert", condK c]
   | .ite c b o => Json.arr #["if", condK c, Json.arr (b.map stmtJson).toArray, Json.arr (o.map stmtJson).toArray]
-  | .whileS c b => Json.arr #["while", condK c, Json.arr (b.map stmtJson).toArray]
-  | .forS it b => Json.arr #["for", (match it with | .empty => "empty" | .nonempty => "nonempty" | .unk => "unk"), Json.arr (b.map stmtJson).toArray]
+  | .whileS c b e => Json.arr #["while", condK c, Json.arr (b.map stmtJson).toArray, Json.arr (e.map stmtJson).toArray]
+  | .forS it b e => Json.arr #["for", (match it with | .empty => "empty" | .nonempty => "nonempty" | .unk => "unk"), Json.arr (b.map stmtJson).toArray,
+      Json.arr (e.map stmtJson).toArray]
   | .withS b => Json.arr #["with", Json.arr (b.map stmtJson).toArray]
+  | .tryS b hk hb f => Json.arr #["try", Json.arr (b.map stmtJson).toArray, (match hk with | .none => "none" | .all => "all" | .some => "some"),
+      Json.arr (hb.map stmtJson).toArray, Json.arr (f.map stmtJson).toArray]
 where condK : C16.Cond → Json
   | .tt => "tt" | .ff => "ff" | .unk id neg => Json.str ((if neg then "n" else "u") ++ toString id)
 
